@@ -11,6 +11,7 @@ pub mod c10;
 pub mod c11;
 pub mod c12;
 pub mod c13;
+pub mod c15;
 pub mod c16;
 pub mod c18;
 pub mod c21;
@@ -42,6 +43,7 @@ pub fn dispatch(id: &str, args: &Args) -> i32 {
         "C12" => drive_main(&c12::C12, args),
         "C13" => drive_main(&c13::C13, args),
         "C14" => drive_main(&c13::C14, args),
+        "C15" => drive_main(&c15::C15, args),
         "C16" => drive_main(&c16::C16, args),
         "C18" => drive_main(&c18::C18, args),
         "C21" => drive_main(&c21::C21, args),
